@@ -42,12 +42,28 @@ class MonitorViolation(Exception):
         self.detail = detail
 
 
+class _Libs(object):
+    """attribute lookup over the core shim and every extra shim library (shim/vf_x_*.c)"""
+
+    def __init__(self, libs):
+        self._libs = libs
+
+    def __getattr__(self, name):
+        for lib in self._libs:
+            try:
+                return getattr(lib, name)
+            except AttributeError:
+                pass
+        raise AttributeError(name)
+
+
 class RT(object):
     def __init__(self, cfg, init=True):
         self.cfg = cfg
         lp = build.libpaths(cfg)
         self.L = ctypes.CDLL(lp["relic"], mode=ctypes.RTLD_GLOBAL)
-        self.S = ctypes.CDLL(lp["shim"], mode=ctypes.RTLD_GLOBAL)
+        core = ctypes.CDLL(lp["shim"], mode=ctypes.RTLD_GLOBAL)
+        self.S = _Libs([core] + [ctypes.CDLL(p, mode=ctypes.RTLD_GLOBAL) for p in build.extra_libs(cfg)])
         self.libc = ctypes.CDLL(None)
         self.libc.malloc.restype = ctypes.c_void_p
         self.libc.malloc.argtypes = [ctypes.c_size_t]
